@@ -122,3 +122,31 @@ def reachable_bloom(P, rng, est, rate, hf, keys, counting=False, amounts=(1,)):
             f.add(k)
             desc.append(("add", [k]))
     return f, desc
+
+
+def noise_reads(ctx, rng, f, keys, p=0.3):
+    """read-only calls with arbitrary arguments interleaved into a mutation history (before a mutator): look-ups, hash computations
+    with an EXPLICIT depth other than the structure's own, string / byte conversions.  They must not influence what the following
+    calls do (a memo filled by a query is only visible through the next mutation)."""
+    if rng.random() >= p or not keys:
+        return
+    for _ in range(rng.randint(1, 3)):
+        k = rng.choice(keys)
+        c = rng.randrange(7)
+        ctx.count("interleaved_read_only_calls")
+        if c == 0 and hasattr(f, "hashes"):
+            f.hashes(k, rng.randint(1, 9))
+        elif c == 1 and hasattr(f, "hashes"):
+            f.hashes(rng.choice(keys))
+            f.hashes(k, 1)
+        elif c == 2:
+            f.check(k)
+        elif c == 3:
+            str(f)
+        elif c == 4:
+            if getattr(f, "elements_added", 0) >= 0:  # a completely set union result (element estimate -1) cannot be exported: not a finding
+                bytes(f)
+        elif c == 5:
+            k in f
+        elif hasattr(f, "check_alt") and hasattr(f, "hashes"):
+            f.check_alt(f.hashes(k))
